@@ -66,7 +66,7 @@ def gen_patterns(rng, dirs, files):
     pats = []
     all_dirnames = sorted({c for d in dirs for c in d.split("/") if c})
     for _ in range(rng.randint(0, 4)):
-        form = rng.choice(["dir/", "*.ext", "exact", "dir/**", "**/*_gen.py"])
+        form = rng.choice(["dir/", "*.ext", "exact", "dir/**", "**/*_gen.py", "charclass", "question"])
         if form == "dir/" and all_dirnames:
             pats.append(rng.choice(all_dirnames + ["lib", "gen", "nonexistent"]) + "/")
         elif form == "*.ext":
@@ -79,6 +79,15 @@ def gen_patterns(rng, dirs, files):
                 pats.append(rng.choice(tops) + "/**")
         elif form == "**/*_gen.py":
             pats.append("**/*_gen.py")
+        elif form in ("charclass", "question") and files:
+            # the remaining glob constructs, as the ONLY construct of the pattern: a character class / a one-character wildcard inside the file name of an exact path
+            f = rng.choice(sorted(files))
+            d, _, base = f.rpartition("/")
+            stem = base.split(".")[0]
+            k = rng.randrange(len(stem)) if stem else None
+            if k is not None and stem[k] not in "[]*?!":
+                cls = rng.choice(["[%sZ]" % stem[k], "[%s-%s]" % (stem[k], stem[k]), "[!Z]", "[Z%s9]" % stem[k]]) if form == "charclass" else "?"
+                pats.append((d + "/" if d else "") + base[:k] + cls + base[k + 1:])
     return pats
 
 
@@ -102,6 +111,9 @@ def ref_ignored(path: str, patterns) -> bool:
                 return True
         elif p == "**/*_gen.py":
             if len(parts) > 1 and parts[-1].endswith("_gen.py"):
+                return True
+        elif "[" in p or "?" in p:
+            if fnmatch.fnmatchcase(path, p):
                 return True
         else:
             if path == p:
